@@ -79,6 +79,21 @@ def growth_boundary_strings(rng, buf=8192, ks=(1, 2, 3)):
     return out
 
 
+def single_change_at_boundary(buf=8192, ks=(1, 2, 3)):
+    """otherwise safe strings with exactly one changing element whose output lands on or next to
+    offset k*buf: the only evidence that the result differs from the input"""
+    out = []
+    for k in ks:
+        for d in (-3, -2, -1, 0, 1):
+            n = k * buf + d
+            if n < 0:
+                continue
+            for x in (" ", "%41", "%2f", "é", "%", "+"):
+                out.append("a" * n + x + "a" * 7)
+                out.append("a" * n + x)
+    return out
+
+
 # ---------------------------------------------------------------------------------
 # URL level
 # ---------------------------------------------------------------------------------
